@@ -193,6 +193,92 @@ def sync_loop(lim: int, k: int) -> bool:
     return not w.alive
 
 
+def gthread_recycle(nconn: int, lim: int, early: bool) -> bool:
+    """
+    pre: 1 <= nconn <= CASE["nconn"] and 1 <= lim <= nconn
+    post: __return__
+    """
+    # concurrent load on gthread: several connections have been handed to the pool when the limit is reached; the ones
+    # already in flight must be answered in full before the worker leaves (the real ThreadWorker.run incl. its tail)
+    import gunicorn.workers.gthread as G
+    from harness.c04 import DeferredPool
+    nconn, lim = pick(nconn, 1, CASE["nconn"]), pick(lim, 1, CASE["nconn"])
+    calls = []
+    cfg = W.make_cfg(keepalive=0, threads=1, worker_connections=8)
+    w = W.thread_worker(cfg, _app(calls), max_requests=lim)
+    w._keep.clear()
+    w.nr_conns = 0
+    pool = DeferredPool()
+    w.tpool = pool
+    clients = [RecSock([REQ]) for _ in range(nconn)]
+    pending = list(clients)
+
+    class Listener(RecSock):
+        def accept(self_):
+            if not pending:
+                raise OSError(errno.EAGAIN, "again")
+            return pending.pop(0), ("10.0.0.9", 1000)
+    lst = Listener()
+    w.sockets = [lst]
+
+    class Poller(W.Poller):
+        def select(self_, timeout):
+            evs = []
+            for s in list(self_.order):
+                if s is lst:
+                    if pending:
+                        evs.append((SimpleNamespace(data=self_.reg[s], fileobj=s), 1))
+                elif not s.out:
+                    evs.append((SimpleNamespace(data=self_.reg[s], fileobj=s), 1))
+            return evs
+    w.poller = Poller()
+    loops = [0]
+
+    def fwait(fs, timeout=None, return_when=None):
+        fs = list(fs)
+        # handler threads make progress: one job per call while the loop runs, everything during the final wait
+        todo = [f for f in fs if f.state == "pending"]
+        if timeout and timeout > 1:
+            for f in todo:
+                f.run()
+        elif todo and (early or loops[0] >= nconn):
+            todo[0].run()
+        return SimpleNamespace(done=[f for f in fs if f.state in ("done", "cancelled")],
+                               not_done=[f for f in fs if f.state == "pending"])
+
+    def notify():
+        loops[0] += 1
+        if loops[0] > 12:
+            w.alive = False
+    w.tmp = SimpleNamespace(notify=notify)
+    saved = G.futures, G.os
+    G.futures = ns("G.futures", wait=fwait, FIRST_COMPLETED="FIRST_COMPLETED")
+    G.os = ns("G.os", getppid=lambda: 1)
+    try:
+        w.run()
+    finally:
+        G.futures, G.os = saved
+    if w.alive:
+        return False
+    # every connection that had been handed to a handler before the worker left got its complete response
+    for f in pool.pending:
+        if f.state != "done":
+            return False
+    answered = 0
+    for c in clients:
+        raw = c.wire()
+        if not raw:
+            continue
+        try:
+            rs = hr.parse_stream(raw, [False])
+        except hr.Bad:
+            return False
+        if not _one(rs):
+            return False
+        answered += 1
+    return answered == pool.jobs and answered >= min(lim, nconn)
+
+
 def count_twin(lim: int, k: int) -> bool:
     """
     pre: 0 <= lim <= CASE["lim"] and 1 <= k <= CASE["k"]
@@ -215,6 +301,9 @@ OBLIGATIONS = [
        cases={"quick": [{"kind": k, "lim": 3, "k": 4} for k in ("gthread", "async")],
               "thorough": [{"kind": k, "lim": 4, "k": 6} for k in ("gthread", "async")]},
        timeout={"quick": 900, "thorough": 3000}, bound="limit 1..3 (4), 1..4 (6) pipelined requests on one keep-alive connection"),
+    Ob("C18.gthread_recycle", "gthread_recycle", cases={"quick": [{"nconn": 3}], "thorough": [{"nconn": 5}]}, timeout=900,
+       bound="real ThreadWorker.run with a deferred executor: 1..3 (thorough 5) connections handed to the pool, limit reached "
+             "while others are still queued: all of them are answered before the worker leaves"),
     Ob("C18.sync_loop", "sync_loop", cases={"quick": [{"lim": 3, "k": 4}], "thorough": [{"lim": 4, "k": 6}]}, timeout=900,
        bound="run_for_one with 0..4 (6) waiting connections and limit 1..3 (4)"),
 ]
